@@ -62,7 +62,7 @@ def small_cases(tier, rng):
     out.sort()
     if tier == "quick":
         rng.shuffle(out)
-        out = out[:250]
+        out = out[:140]
     return out
 
 
@@ -98,7 +98,7 @@ def run(ctx):
         # all cut sets of short streams (thorough: every stream of <= 12 bytes from the atoms)
         smalls = small_cases(ctx.tier, rng)
         nall = 0
-        for s in (smalls if thorough else smalls[:60]):
+        for s in (smalls if thorough else smalls[:40]):
             for cuts in S.all_cutsets(len(s)):
                 if cuts:
                     cases.append(("chan", 262144, 1073741824, S.pieces(s, cuts), {"stream": "small-allcuts"}))
